@@ -234,8 +234,15 @@ GetOperation(st, s, w, i) ==
   IF StudyPresent(st, s) /\ i \in DOMAIN st.ops[s][w] THEN Ok(st, st.ops[s][w][i]) ELSE Err(st, "NotFound")
 
 \* ---------------------------------------------------------- early stopping
-\* env = [raise |-> BOOLEAN, stop |-> BOOLEAN]  (the algorithm's verdict for the requested trial)
+\* env = [raise |-> BOOLEAN, stop |-> BOOLEAN]  (the algorithm's verdict for the requested trial), optionally
+\*       self |-> BOOLEAN : the algorithm decides about the requested trial at all (default TRUE); the code says
+\*                          "Pythia does not guarantee that the output_operation's id will be in the decisions";
+\*       also |-> sequence of other trial ids it decides about in the same answer (same verdict).
+\* No decision about the requested trial means "do not stop" (Policy docstring); the operation is finished all the same,
+\* otherwise every later check of the trial would be answered from it without reaching the algorithm again (C06).
 \* An operation record is [status \in {"ACTIVE","DONE","FAILED"}, stop].
+EsSelf(env) == IF "self" \in DOMAIN env THEN env.self ELSE TRUE
+EsAlsoIds(env) == IF "also" \in DOMAIN env THEN {env.also[i] : i \in DOMAIN env.also} ELSE {}     \* a sequence (JSON array)
 CheckEarlyStopping(st, s, t, env) ==
   IF StudyGuard(st, s) # None THEN Err(st, StudyGuard(st, s))
   ELSE IF ~Present(st, s, t) THEN Err(st, "NotFound")
@@ -247,8 +254,10 @@ CheckEarlyStopping(st, s, t, env) ==
          \* DOC (C06): the failure is reported and the next check reaches the algorithm again.
          THEN [st |-> [st EXCEPT !.es[s][t] = [status |-> "FAILED", stop |-> FALSE]],
                resp |-> [err |-> "Unknown", val |-> None]]
-       ELSE LET nop == [status |-> "DONE", stop |-> env.stop] IN
-            Ok([st EXCEPT !.es[s][t] = nop], [stop |-> env.stop])
+       ELSE LET mine == [status |-> "DONE", stop |-> EsSelf(env) /\ env.stop]
+                other == [status |-> "DONE", stop |-> env.stop]
+            IN Ok([st EXCEPT !.es[s] = [u \in Ids |-> IF u = t THEN mine ELSE IF u \in EsAlsoIds(env) THEN other ELSE @[u]]],
+                  [stop |-> mine.stop])
 
 \* delta = [study |-> [Cells -> Vals \cup {None}], t |-> trial id or 0, trial |-> [Cells -> Vals \cup {None}],
 \*          t2 |-> second trial id or 0 (written with the same cells as t)]
